@@ -62,6 +62,12 @@ class CallGraph:
             if node_s.k != 'InitListExpr':
                 return
             ct = node_s.get('ct', '')
+            if ct.rstrip().endswith(']'):
+                # array initialiser: every element
+                for c in node_s.ch:
+                    if c is not None:
+                        rec(c, path)
+                return
             recname, fname = path[0]
             r = self.prog.record(recname)
             if r is not None and (ct.endswith(recname) or ct.endswith(r.get('tag') or '\0') or
@@ -86,6 +92,7 @@ class CallGraph:
         if self._param_funcs is not None:
             return self._param_funcs
         direct = {}
+        self._passers = {}   # (callee key, idx, function name) -> set of keys of functions that pass it
         forward = []  # (callee key, idx, caller key, caller param idx)
         for f in self.prog.functions:
             for c in f.calls():
@@ -105,6 +112,7 @@ class CallGraph:
                         r = s['ref']
                         if r['kind'] == 'func':
                             direct.setdefault((tgt.key, i), set()).add(r['name'])
+                            self._passers.setdefault((tgt.key, i, r['name']), set()).add(f.key)
                         elif r['kind'] == 'parm':
                             forward.append((tgt.key, i, f.key, r['index']))
         changed = True
@@ -116,6 +124,12 @@ class CallGraph:
                 if not src <= dst:
                     dst |= src
                     changed = True
+                for nm in src:
+                    ps = self._passers.setdefault((ck, i, nm), set())
+                    add = self._passers.get((fk, j, nm), set())
+                    if not add <= ps:
+                        ps |= add
+                        changed = True
         self._param_funcs = direct
         return direct
 
@@ -268,16 +282,50 @@ class CallGraph:
         for r in roots:
             seen[r.key] = (r, None, None)
             dq.append(r)
-        while dq:
-            f = dq.popleft()
-            for cs in self.callees(f):
-                for t in list(cs.targets) + list(cs.callbacks):
-                    if isinstance(t, str):
-                        continue
-                    if t.key not in seen:
+        deferred = []
+        while True:
+            while dq:
+                f = dq.popleft()
+                for cs in self.callees(f):
+                    for t in list(cs.targets) + list(cs.callbacks):
+                        if isinstance(t, str):
+                            continue
+                        if t.key in seen:
+                            continue
+                        if cs.indirect and cs.how.startswith('parameter '):
+                            # a function passed as an argument is only a target here if some function
+                            # that passes it is itself reachable
+                            deferred.append((f, cs, t))
+                            continue
                         seen[t.key] = (t, f.key, cs)
                         dq.append(t)
+            progressed = False
+            rest = []
+            for f, cs, t in deferred:
+                if t.key in seen:
+                    continue
+                if self._passed_by_reachable(f, cs, t, seen):
+                    seen[t.key] = (t, f.key, cs)
+                    dq.append(t)
+                    progressed = True
+                else:
+                    rest.append((f, cs, t))
+            deferred = rest
+            if not progressed:
+                break
         return seen
+
+    def _passed_by_reachable(self, f, cs, t, seen):
+        ce = strip(cs.node.ch[0])
+        while ce is not None and ce.k == 'UnaryOperator' and ce['op'] == '*':
+            ce = strip(ce.ch[0])
+        if ce is None or ce.k != 'DeclRefExpr' or ce['ref']['kind'] != 'parm':
+            return True
+        self._param_flow()
+        ps = self._passers.get((f.key, ce['ref']['index'], t.name), None)
+        if ps is None:
+            return True
+        return any(k in seen for k in ps)
 
     def path_to(self, reach, key):
         chain = []
